@@ -30,6 +30,16 @@ func Tick(bal interop.Hash160, epoch int) {
 }
 `
 
+// a contract that refuses every payment made to it - should the token ever ask
+const balRefuserSrc = `package refuser
+
+import "github.com/nspcc-dev/neo-go/pkg/interop"
+
+func OnNEP17Payment(from interop.Hash160, amount int, data any) {
+	panic("no payments, please")
+}
+`
+
 type lockRec struct {
 	until  int64
 	parent string
@@ -160,6 +170,11 @@ func NewBalDriver(mode string) *BalDriver {
 			balOp{kind: "transfer", from: "L1", to: "A", amt: bigS("3"), signer: "to"},
 			balOp{kind: "transferX", from: "A", to: "A", amt: bigS("5"), signer: "C"},
 			balOp{kind: "transferX", from: "A", to: "B", amt: bigS("0"), signer: "C"})
+		// receivers that are well-formed but special: the all-zero hash, a contract that refuses payments when asked
+		add(balOp{kind: "transfer", from: "A", to: "Z", amt: bigS("3"), signer: "from"}, balOp{kind: "transferX", from: "A", to: "Z", amt: bigS("3"), signer: "C"},
+			balOp{kind: "mint", to: "Z", amt: bigS("5"), signer: "C"}, balOp{kind: "transfer", from: "Z", to: "A", amt: bigS("3"), signer: "to"},
+			balOp{kind: "transfer", from: "A", to: "Kr", amt: bigS("3"), signer: "from"}, balOp{kind: "transfer", from: "A", to: "Kr", amt: bigS("5"), signer: "from"},
+			balOp{kind: "transferX", from: "A", to: "Kr", amt: bigS("3"), signer: "C"})
 		// the public transfer with something in its data argument
 		add(balOp{kind: "transfer", from: "A", to: "B", amt: bigS("3"), signer: "from", data: "b"},
 			balOp{kind: "transfer", from: "A", to: "B", amt: bigS("3"), signer: "S", data: "b"},
@@ -180,6 +195,7 @@ func NewBalDriver(mode string) *BalDriver {
 			balOp{kind: "lock", from: "A", to: "Lnext", amt: bigS("3"), until: 2, signer: "C"},
 			balOp{kind: "transfer", from: "A", to: "B", amt: bigS("5"), signer: "from"},
 			balOp{kind: "transfer", from: "B", to: "A", amt: bigS("5"), signer: "from"},
+			balOp{kind: "transfer", from: "B", to: "A", amt: bigS("0"), signer: "from"}, // may leave a record that holds nothing
 			balOp{kind: "transferX", from: "A", to: "B", amt: bigS("5"), signer: "C"},
 			balOp{kind: "burn", from: "L1", amt: bigS("5"), signer: "C"},
 			balOp{kind: "tick", signer: "C", de: 1},
@@ -259,6 +275,11 @@ func NewBalDriver(mode string) *BalDriver {
 			balOp{kind: "transfer", from: "A", to: "L1", amt: bigS("3"), signer: "from"}, balOp{kind: "transfer", from: "A", to: "L1", amt: bigS("3"), signer: "S"},
 			balOp{kind: "transfer", from: "A", to: "L1", amt: bigS("8"), signer: "from"}, balOp{kind: "transfer", from: "B", to: "Lnext", amt: bigS("3"), signer: "from"},
 		)
+		// receivers that are well-formed but special: the all-zero hash, a contract that refuses payments when asked
+		for _, sg := range []string{"from", "S"} {
+			add(balOp{kind: "transfer", from: "A", to: "Kr", amt: bigS("3"), signer: sg}, balOp{kind: "transfer", from: "A", to: "Z", amt: bigS("3"), signer: sg},
+				balOp{kind: "transfer", from: "A", to: "Kr", amt: bigS("5"), signer: sg, data: "b"})
+		}
 		// what the data argument of the public transfer holds is the receiver's business: every signer set again with a byte
 		// string, an integer and an array in it
 		for _, dt := range []string{"b", "i", "a"} {
@@ -308,6 +329,10 @@ func NewBalDriver(mode string) *BalDriver {
 			balOp{kind: "lockMany", from: "A", amt: bigS("1"), until: 1, de: 40, signer: "C"},
 			balOp{kind: "lock", from: "A", to: "Lnext", amt: bigS("3"), until: 2, signer: "C"},
 			balOp{kind: "burn", from: "L1", amt: bigS("1"), signer: "C"},
+			// a lock made from a lock account (in this mode the later lock addresses sort before the earlier ones, so
+			// the inner lock is served first and its funds pass through the outer one within one tick)
+			balOp{kind: "lock", from: "L1", to: "Lnext", amt: bigS("1"), until: 1, signer: "C"},
+			balOp{kind: "lock", from: "L1", to: "Lnext", amt: bigS("1"), until: 2, signer: "C"},
 			balOp{kind: "tick", signer: "C", de: 1}, balOp{kind: "tick", signer: "C", de: 2}, balOp{kind: "balEpoch", signer: "C"})
 	default:
 		hpanic("BalDriver: unknown mode %s", mode)
@@ -330,13 +355,23 @@ func (d *BalDriver) Build() *World {
 	w.Deploy("balance", bal, []any{false, util.Uint160{}, util.Uint160{}})
 	probe := CompileSource("balprobe", balProbeSrc, &compiler.Options{Name: "balprobe", NoEventsCheck: true, NoPermissionsCheck: true, Permissions: WildPermissions()})
 	kc := w.Deploy("balprobe", probe, nil)
+	kr := w.Deploy("balrefuser", CompileSource("balrefuser", balRefuserSrc, &compiler.Options{Name: "balrefuser", NoEventsCheck: true, NoPermissionsCheck: true, Permissions: WildPermissions()}), nil)
 	d.w = w
 	mk := func(b byte) []byte { a := make([]byte, 20); a[0] = b; a[19] = b; return a }
 	d.addrs = map[string][]byte{
 		"A": w.Acct("A").Hash.BytesBE(), "B": w.Acct("B").Hash.BytesBE(), "S": w.Acct("S").Hash.BytesBE(), "E": w.Acct("E").Hash.BytesBE(),
-		"Kc": kc.Hash.BytesBE(), "Bal": w.Contracts["balance"].Hash.BytesBE(),
+		"Kc": kc.Hash.BytesBE(), "Bal": w.Contracts["balance"].Hash.BytesBE(), "Kr": kr.Hash.BytesBE(), "Z": make([]byte, 20),
 		"L1": mk(0xf1), "L2": mk(0xf2), "L3": mk(0xf3),
 		"bad19": make([]byte, 19), "bad21": make([]byte, 21), "empty": {}}
+	if d.Mode == "C01e" {
+		// the first and the third lock address sort before every owner's, the second one after them: a tick meets lock
+		// accounts and their parents in both orders
+		d.addrs["L1"], d.addrs["L3"] = mk(0x00), mk(0x01)
+		d.addrs["L1"][19] = 0x01
+	}
+	if d.Mode == "C09many" {
+		d.addrs["L1"], d.addrs["L3"] = d.addrs["L3"], d.addrs["L1"] // later lock addresses sort first
+	}
 	w.Freeze()
 	return w
 }
@@ -406,6 +441,11 @@ func (d *BalDriver) Enabled(n *Node, i int) bool {
 	if o.kind == "lock" {
 		if m.usedLocks >= 3 {
 			return false // quantifier: lock targets are fresh addresses
+		}
+		if o.from == "L1" {
+			if _, live := m.locks[Hx(d.addrs["L1"])]; !live || m.usedLocks < 1 {
+				return false // a chained lock needs the outer lock account
+			}
 		}
 		if d.Mode == "C02" {
 			// ... and fresh also means unfunded (C01 and C09 keep the funded target: finding lock-target-prefunded)
@@ -839,7 +879,7 @@ func (d *BalDriver) Step(x *Exec, n *Node, i int) StepResult {
 		nn.M = m
 		return StepResult{Next: nn, Outcome: outcome}
 	}
-	for _, sym := range []string{"A", "B", "S", "E", "Kc", "Bal", "L1", "L2", "L3"} {
+	for _, sym := range []string{"A", "B", "S", "E", "Kc", "Kr", "Z", "Bal", "L1", "L2", "L3"} {
 		a := d.addrs[sym]
 		r := x.W.Read(nn.L, nn.H, nn.TS, balH, "balanceOf", a)
 		want := NB(nm.get(Hx(a)))
